@@ -817,6 +817,20 @@ impl Connection {
     pub fn verif_fingerprint(&self) -> String {
         format!("{:?}|{:?}", self.state, self.send)
     }
+    /// Number of vital chunks sent but not yet acknowledged by the peer.
+    pub fn verif_unacked(&self) -> usize {
+        match self.state {
+            State::Online(ref online) => online.resend_queue.len(),
+            _ => 0,
+        }
+    }
+    /// Number of chunks queued for the next datagram.
+    pub fn verif_queued(&self) -> usize {
+        match self.state {
+            State::Online(ref online) => online.packet.num_chunks as usize,
+            _ => 0,
+        }
+    }
     pub fn verif_state_name(&self) -> &'static str {
         match self.state {
             State::Unconnected => "Unconnected",
